@@ -6,6 +6,7 @@ import (
 	"runtime"
 	"strings"
 	"sync"
+	"sync/atomic"
 	"time"
 
 	"github.com/PowerDNS/lightningstream/config"
@@ -57,6 +58,28 @@ type Node struct {
 	dlDone, dlErr int // downloader events (guarded by mu)
 }
 
+// Every Start of an instance with the cleaner enabled launches one background
+// cleaner run right away (the next one is an interval later). The harness
+// drives further runs itself through VerifCleaner().RunOnce, which - like the
+// Worker's own loop - is not meant to run concurrently with another RunOnce of
+// the same Worker: WaitCleanersIdle waits until every launched background run
+// has finished.
+var (
+	cleanRan      atomic.Int64
+	cleanLaunched atomic.Int64
+)
+
+func WaitCleanersIdle(d time.Duration) bool {
+	deadline := time.Now().Add(d)
+	for cleanRan.Load() < cleanLaunched.Load() {
+		if time.Now().After(deadline) {
+			return false
+		}
+		time.Sleep(200 * time.Microsecond)
+	}
+	return true
+}
+
 var (
 	nodesMu sync.Mutex
 	nodes   = map[string]*Node{}
@@ -71,6 +94,11 @@ func installHook() {
 	}
 	hookOn = true
 	vhook.Set(func(scope, point string, n uint64) {
+		if point == "clean.ran" {
+			// the background cleaner of some instance finished a run (its scope is the database name)
+			cleanRan.Add(1)
+			return
+		}
 		nodesMu.Lock()
 		nd := nodes[scope]
 		nodesMu.Unlock()
@@ -128,6 +156,9 @@ func (nd *Node) Start() (Yield, error) {
 	nd.running = true
 	nd.mu.Unlock()
 	yields := nd.yields
+	if nd.Conf.Storage.Cleanup.Enabled && !nd.Opt.ReceiveOnly {
+		cleanLaunched.Add(1)
+	}
 	go func() {
 		finished := false
 		defer func() {
